@@ -10,9 +10,16 @@ RULE = ("seeded random grammars with '-' (error stop) at random positions of seq
         "construction of a ParseFatalException/ParseSyntaxException during parse_string is recorded from outside, and if one was "
         "constructed the call must raise a fatal exception at the location of the first one; non-trivial = a fatal exception was "
         "constructed during the parse; the oracle and the model comparison are repeated with packrat on and, for a left-recursive rule "
-        "E <<= (E + '+' - N) | N placed inside the same containers, with enable_left_recursion(None / 1)")
+        "E <<= (E + '+' - N) | N placed inside the same containers, with enable_left_recursion(None / 1); (iii) the elements that do "
+        "not simply let a fatal exception through (Proofs/FatalAlt.v): a family of Or / Each grammars over alternatives with error "
+        "stops, fatal / non-fatal conditions and fatal actions, and repetitions with stop_on / SkipTo with fail_on whose sentinel has an "
+        "error stop, compared with the model, plus implementation oracles stating the theorems on the real objects: the outcome of "
+        "the real Or (Each) against what C07_or_no_match / C07_or_some_match (C07_each_no_match / C07_each_some_match) predict from the "
+        "outcomes of try_parse(raise_fatal=True) / _parse of the real alternatives; a repetition / SkipTo whose stop_on / fail_on / "
+        "ignore expression raises a fatal exception against its twin whose sentinel has '+' in place of '-' (same outcome on every input)")
 TRUSTED = pcommon.TRUSTED_PARSE + [
-    "the oracle's recorder wraps ParseFatalException.__init__ from the harness (no change to /repo)"]
+    "the oracle's recorder wraps ParseFatalException.__init__ from the harness (no change to /repo)",
+    "the Or/Each oracle calls try_parse(raise_fatal=True) and _parse on the alternatives of the built object, as Or/Each.parseImpl do"]
 
 TRANSPARENT_UNARY = ["opt", "star", "plus", "group", "suppress", "fb", "combine", "located"]
 
@@ -160,6 +167,210 @@ def _oracle_run(pp, root, inp):
     return len(rec.events), None
 
 
+# ---------------------------------------------------------------------------------------------------------------------
+# Or / Each / stop_on / fail_on: the elements that collect or ignore fatal exceptions (theorems in Proofs/FatalAlt.v)
+# ---------------------------------------------------------------------------------------------------------------------
+C_, D_, X_ = ("lit", "c"), ("lit", "d"), ("lit", "x")
+W_AB = ("word", "ab")
+S_AB = ("andstop", 1, gen.A, gen.B)                   # 'a' - 'b'
+S_ACD = ("andstop", 2, gen.A, C_, D_)                 # 'a' + 'c' - 'd'
+S_BC = ("andstop", 1, gen.B, C_)                      # 'b' - 'c'
+S_ABC = ("andstop", 1, gen.A, gen.B, C_)              # 'a' - 'b' + 'c'
+ALT_PLAIN = [gen.A, gen.B, C_, ("and", gen.A, C_), ("and", gen.A, gen.B), W_AB, ("lit", "ab"), ("and", gen.B, C_), ("word", "abc")]
+ALT_STOP = [S_AB, S_ACD, S_BC, S_ABC, ("group", S_AB), ("andstop", 1, W_AB, C_)]
+ALT_ACT = [("act", ("cond", 3, True, 7), W_AB), ("act", ("cond", 3, False, 8), W_AB), ("act", ("raise", "fatal", 2), gen.A),
+           ("act", ("cond", 2, True, 9), ("word", "abc")), ("act", ("raise", "parse", 3), ("and", gen.A, C_))]
+ALT_INPUTS = ["ac", "ab", "a", "acx", "acd", "ad", "ac ab", "b", "bc", "bx", "abc", " ac", "a c", "c ab", "ab c", "c ad", "ad c", "",
+              "abx", "ab ac", "c", "bc ad", "ad bc", "aab", "ba c"]
+ALT_FIXED = [                                            # the instances of Props/C07.v
+    (("or", S_AB, gen.B), ["ac"]), (("or", S_AB, S_ACD), ["acx", "ac", "ad"]), (("or", S_AB, gen.A), ["ac"]),
+    (("or", S_AB, ("and", gen.A, C_)), ["ac"]), (("or", ALT_ACT[0], gen.A), ["ab", "a", "aba"]), (("or", gen.A, ALT_ACT[0]), ["ab"]),
+    (("or", S_AB, ALT_ACT[1]), ["ac", "ab"]), (("each", S_AB, C_), ["ad", "c ad", "ab c", "c ab"]),
+    (("each", S_AB, ("and", gen.A, C_)), ["ac ab", "ad", "ab ac", "ac ad"]), (("each", ("opt", S_AB), C_), ["c ad", "ad c", "c"]),
+    (("each", S_AB, ("and", gen.A, C_), ("opt", D_)), ["ac ab", "ac d ab", "d ac ab", "ac d ad"]),
+    (("each", S_ACD, ("and", gen.A, C_)), ["ac acd", "ac acx", "acd ac"]), (("each", S_BC, gen.B, ("opt", gen.A)), ["b bc", "b a bc", "b bx"]),
+    (("and", ("plusstop", W_AB, S_BC), ("opt", S_BC)), ["a b x", "a b c", "b x", "a bc"]),
+    (("and", ("starstop", W_AB, S_BC), ("opt", S_BC)), ["b x", "b c", "a b x"]),
+    (("plusstop", S_AB, C_), ["ab ax", "ab c", "ab ab"]),
+    (("and", ("skiptof", X_, S_AB), ("opt", S_AB)), ["ac x", "ab x", "c ac x"]),
+    (("skipto", S_AB), ["x ac", "x ab"]), (("skiptoi", S_AB), ["x ac", "x ab"]),
+]
+
+
+def rand_alt(rng):
+    """('or' | 'each', alternatives...) at top level, or a repetition / SkipTo with a sentinel that has an error stop (the sentinel is
+    used a second time in a streamlined position: streamline() does not reach not_ender / failOn, and an unflattened `x - y` stops nothing)"""
+    r = rng.random()
+    if r < 0.45 or r >= 0.85:
+        kind = "or" if r < 0.45 else "mfor"
+        n = rng.choice([2, 2, 3])
+        pool = ALT_PLAIN + ALT_STOP * 2 + ALT_ACT * 2 + [("opt", S_AB)]
+        alts = []
+        while len(alts) < n:
+            a = rng.choice(pool)
+            if a not in alts:
+                alts.append(a)
+        if kind == "mfor":                       # an Or below the transparent containers
+            return ("and", rng.choice([("opt", ("or",) + tuple(alts)), ("group", ("or",) + tuple(alts)), ("star", ("and", ("or",) + tuple(alts), D_))]),
+                    rng.choice([("empty",), ("opt", C_)]))
+        return ("or",) + tuple(alts)
+    if r < 0.7:
+        n = rng.choice([2, 2, 3])
+        pool = [a for a in ALT_PLAIN + ALT_STOP * 2 + ALT_ACT[:3]]
+        ops = []
+        while len(ops) < n:
+            a = rng.choice(pool)
+            if a not in ops and ("opt", a) not in ops:
+                ops.append(("opt", a) if rng.random() < 0.3 else a)
+        return ("each",) + tuple(ops)
+    sent = rng.choice([S_BC, S_AB, S_ACD])
+    body = rng.choice([W_AB, gen.A, ("mf", gen.A, gen.B), S_AB, ("word", "abc")])
+    if r < 0.8:
+        return ("and", (rng.choice(["plusstop", "starstop"]), body, sent), ("opt", sent))
+    return ("and", ("skiptof", rng.choice([X_, C_, D_]), sent), ("opt", sent))
+
+
+def _o(fn):
+    import pyparsing as pp
+    try:
+        return ("ok", fn())
+    except pp.ParseFatalException as e:
+        return ("fatal", e.loc)
+    except pp.ParseException as e:
+        return ("fail", e.loc)
+
+
+def or_expect(root, inp):
+    """what C07_or_no_match / C07_or_some_match_noact / C07_or_some_match say the Or does, from the outcomes of the real alternatives"""
+    alts = list(root.exprs)
+    p1 = [_o(lambda e=e: e.try_parse(inp, 0, raise_fatal=True)) for e in alts]
+    m1 = [i for i, o in enumerate(p1) if o[0] == "ok"]
+    f1 = [o[1] for o in p1 if o[0] == "fatal"]
+    info = {"pass1": p1, "pass2": {}}
+    if not m1:
+        return (("fatal", max(f1)), "C07_or_no_match", info) if f1 else (("fail",), "no alternative matches, none fatal", info)
+
+    def second(e):
+        loc, toks = e._parse(inp, 0)
+        return (loc, toks.as_list())
+    p2 = {i: _o(lambda e=alts[i]: second(e)) for i in m1}
+    info["pass2"] = p2
+    i0 = sorted(m1, key=lambda i: -p1[i][1])[0]              # the longest match of the first pass, the first of the longest
+    o0 = p2[i0]
+    if o0[0] == "fatal":
+        return ("fatal", o0[1]), "C07_or_some_match: a fatal exception of the second pass propagates", info
+    if o0[0] == "ok" and o0[1][0] >= p1[i0][1]:
+        return ("ok", o0[1][1]), "C07_or_some_match: the longest alternative matches again, fatal exceptions dropped", info
+    if all(p2[i][0] == "fail" for i in m1):
+        return (("fatal", max(f1)) if f1 else ("fail",)), "C07_or_some_match: every match is lost in the second pass", info
+    return None, "unconstrained", info
+
+
+def each_expect(root, inp, has_act):
+    """C07_each_no_match / C07_each_some_match: the rounds of Each.parseImpl replayed from try_parse(raise_fatal=True) of the real operands"""
+    import pyparsing as pp
+    ops = list(root.exprs)
+    is_opt = [isinstance(e, pp.Opt) for e in ops]
+    tryx = [e.expr if o else e for e, o in zip(ops, is_opt)]
+    rem_r = [i for i in range(len(ops)) if not is_opt[i]]
+    rem_o = [i for i in range(len(ops)) if is_opt[i]]
+    tl, rounds = 0, []
+    while True:
+        matched, fat = [], []
+        for i in rem_r + rem_o:
+            o = _o(lambda e=tryx[i]: e.try_parse(inp, tl, raise_fatal=True))
+            if o[0] == "ok":
+                tl = o[1]
+                matched.append(i)
+            elif o[0] == "fatal":
+                fat.append(o[1])
+        rounds.append((matched, fat))
+        if not matched:
+            break
+        rem_r = [i for i in rem_r if i not in matched]
+        rem_o = [i for i in rem_o if i not in matched]
+    info = {"rounds": rounds, "dropped": any(m and f for m, f in rounds)}
+    if fat:
+        return ("fatal", max(fat)), "C07_each_no_match", info
+    if rem_r:
+        return ("fail",), "a required operand is missing, no fatal exception in the last round", info
+    return (None if has_act else ("ok",)), "C07_each_some_match: every round with a fatal exception also had a match", info
+
+
+def alt_oracle(g, inp):
+    """(nontrivial, failure text or None, expectation label, 'fatal although an alternative matches' witness or None)"""
+    import pyparsing as pp
+    root = build.Builder({}).build_all(g)
+    root.streamline()
+    if len(root.exprs) != len(g) - 1:
+        return False, None, "not flat", None
+    real = _o(lambda: root.parse_string(inp).as_list())
+    if g[0] == "or":
+        exp, why, info = or_expect(root, inp)
+        nontrivial = any(o[0] == "fatal" for o in info["pass1"]) or any(o[0] == "fatal" for o in info["pass2"].values())
+        despite = None
+        if real[0] == "fatal" and any(o[0] == "ok" for o in info["pass2"].values()):
+            despite = "%r on %r raises a fatal exception at %d although an alternative matches: first pass %r, with actions %r" % (
+                g, inp, real[1], info["pass1"], info["pass2"])
+    else:
+        exp, why, info = each_expect(root, inp, "'act'" in repr(g))
+        nontrivial = any(f for _, f in info["rounds"])
+        despite = None
+    if exp is None:
+        return nontrivial, None, why, despite
+    ok = (real[0] == exp[0]) and (exp[0] == "fail" or len(exp) == 1 or real[1] == exp[1])
+    bad = None if ok else "%r on %r: the implementation gives %r, expected %r (%s; %r)" % (g, inp, real, exp, why, info)
+    return nontrivial, bad, why, despite
+
+
+def _seq(pp, chars, stop_at):
+    es = [pp.Literal(c) for c in chars]
+    r = es[0]
+    for j, x in enumerate(es[1:], 1):
+        r = (r - x) if j == stop_at else (r + x)
+    return r.streamline()            # streamline() never reaches not_ender / failOn / the ignorer: an unflattened `x - y` stops nothing
+
+
+TWIN_KINDS = ["plus", "star", "skipto_failon", "skipto_failon_include"]    # not SkipTo(ignore=): a fatal exception there also cancels what the same ignorer call skipped before (notes/C07.md)
+TWIN_BODIES = ["word:ab", "word:abc", "lit:a", "seq:ab"]
+TWIN_SENTINELS = [("bc", 1), ("ab", 1), ("acd", 2), ("abc", 1), ("bcd", 1)]
+
+
+def build_twin(spec, fatal):
+    import pyparsing as pp
+    kind, body, (chars, stop_at) = spec
+    sent = _seq(pp, chars, stop_at if fatal else 0)
+    if body.startswith("word:"):
+        b = pp.Word(body[5:])
+    elif body.startswith("lit:"):
+        b = pp.Literal(body[4:])
+    else:
+        b = pp.Literal(body[4]) - pp.Literal(body[5])        # an error stop in the body / target: this one must propagate
+    if kind == "plus": return pp.OneOrMore(b, stop_on=sent)
+    if kind == "star": return pp.ZeroOrMore(b, stop_on=sent) + pp.Opt(pp.Literal("x"))
+    if kind == "skipto_failon": return pp.SkipTo(b, fail_on=sent)
+    if kind == "skipto_failon_include": return pp.SkipTo(b, fail_on=sent, include=True)
+    return pp.SkipTo(b, ignore=sent)
+
+
+def twin_oracle(spec, inp):
+    """a fatal exception of a stop_on / fail_on / ignore expression = that expression does not match: same outcome as the twin"""
+    def out(e, rec=None):
+        import pyparsing as pp
+        try:
+            return ("ok", e.parse_string(inp).as_list())
+        except pp.ParseBaseException as x:
+            return (type(x).__name__, x.loc)          # the message of NotAny names the sentinel: str() differs between the twins
+    with Recorder() as rec:
+        a = out(build_twin(spec, True))
+        n_all = len(rec.events)
+    with Recorder() as rec2:
+        b = out(build_twin(spec, False))
+        n_body = len(rec2.events)                              # fatal exceptions of the body / target (they propagate in both)
+    bad = None if a == b else "%r on %r: %r with the error stop in the sentinel, %r with '+' in its place" % (spec, inp, a, b)
+    return n_all > n_body, bad
+
+
 def correspond(ctx):
     corr.ensure_driver()
     rng = ctx.rng
@@ -189,6 +400,21 @@ def correspond(ctx):
     cases.append((("mf", ("andstop", 1, gen.A, gen.B), gen.A), {}, "ac"))
     cases.append((("star", ("andstop", 1, gen.A, gen.B)), {}, "ab ab ac"))
     cases.append((("opt", ("group", ("andstop", 1, gen.A, gen.B))), {}, "ac"))
+    # Or / Each / stop_on / fail_on (Proofs/FatalAlt.v): the instances of Props/C07.v, then random members of the family
+    alt_cases = []
+    for g, inputs in ALT_FIXED:
+        groups.append((g, {}, inputs, [("none",)], [("parse", False)]))
+        if g[0] in ("or", "each"):
+            alt_cases.extend((g, s) for s in inputs)
+    for s in ("ab ax", "ab c", "ab ab", "ax"):
+        cases.append((("plusstop", S_AB, C_), {}, s))                 # a fatal exception of the BODY of a repetition with stop_on propagates
+        cases.append((("skipto", S_AB), {}, "x " + s))                # ... and of the target of SkipTo
+    for i in range(120 if not ctx.thorough else 1200):
+        g = rand_alt(rng)
+        inputs = sorted({rng.choice(ALT_INPUTS) for _ in range(4)} | {gen.mutate_input(rng, rng.choice(ALT_INPUTS), "abcd x") for _ in range(2)})
+        groups.append((g, {}, inputs, [("none",), ("packrat", 128)] if i % 5 == 0 else [("none",)], [("parse", False)]))
+        if g[0] in ("or", "each"):
+            alt_cases.extend((g, s) for s in inputs)
     # the same containers around a left-recursive rule with an error stop, bounded-recursion mode
     lr_groups, lr_cases = [], []
     for i in range(40 if not ctx.thorough else 400):
@@ -265,6 +491,41 @@ def correspond(ctx):
                 ctx.violation("swallowed-lr:%r|%r" % (g, inp), "%r (env %r) on %r with enable_left_recursion(%r): %s" % (g, env, inp, mode[1], bad),
                               {"kind": "oracle", "grammar": g, "env": env, "input": inp, "mode": list(mode)})
                 break
+    # Or / Each: the real element against what the theorems predict from the outcomes of its real alternatives
+    labels, despite_first = {}, None
+    for (g, inp) in alt_cases:
+        try:
+            nontrivial, bad, why, despite = alt_oracle(g, inp)
+        except build.Unbuildable:
+            continue
+        ctx.case("oracle-alt:%r|%r" % (g, inp), nontrivial=nontrivial, agreed=bad is None)
+        if nontrivial:
+            labels[why] = labels.get(why, 0) + 1
+        if despite:
+            ctx.stat("oracle_alt_fatal_although_an_alternative_matches")
+            if despite_first is None or len(despite) < len(despite_first):
+                despite_first = despite
+        if bad:
+            ctx.violation("or-each:%r|%r" % (g, inp), bad, {"kind": "alt", "grammar": g, "input": inp})
+    ctx.stat("oracle_alt_cases", len(alt_cases))
+    ctx.coverage_extra["oracle_alt_nontrivial_by_theorem"] = labels
+    if despite_first:
+        ctx.sample({"observation": "Or raises a fatal exception of its second pass although another alternative matches", "first": despite_first})
+    # stop_on / fail_on / ignore: a sentinel with an error stop against its twin without
+    ntw = 0
+    for kind in TWIN_KINDS:
+        for body in TWIN_BODIES:
+            for sent in TWIN_SENTINELS:
+                spec = (kind, body, sent)
+                inputs = {rng.choice(ALT_INPUTS) for _ in range(2)} | {gen.mutate_input(rng, rng.choice(ALT_INPUTS), "abcd x") for _ in range(2 if not ctx.thorough else 12)}
+                inputs |= {"a b x", "ab ac x"} if kind in ("plus", "star") else {"ac x", "b x"}
+                for inp in sorted(inputs):
+                    nontrivial, bad = twin_oracle(spec, inp)
+                    ctx.case("oracle-twin:%r|%r" % (spec, inp), nontrivial=nontrivial, agreed=bad is None)
+                    ntw += nontrivial
+                    if bad:
+                        ctx.violation("lookahead-twin:%r|%r" % (spec, inp), bad, {"kind": "twin", "spec": spec, "input": inp})
+    ctx.stat("oracle_twin_cases_with_fatal_sentinel", ntw)
     ctx.stat("oracle_lr_cases_with_fatal", nlr)
     ctx.stat("oracle_cases", len(cases))
     ctx.stat("oracle_cases_with_fatal", nfatal)
@@ -275,6 +536,29 @@ def search(ctx, reasons):
     import random, time
     rng = random.Random(ctx.seed + 4242)
     t0 = time.time()
+    # the Or / Each / lookahead family first (small, exhaustive over the fixed input list)
+    for _ in range(400 if not ctx.thorough else 3000):
+        if time.time() - t0 > (30 if not ctx.thorough else 200):
+            break
+        g = rand_alt(rng)
+        if g[0] not in ("or", "each"):
+            spec = (rng.choice(TWIN_KINDS), rng.choice(TWIN_BODIES), rng.choice(TWIN_SENTINELS))
+            inp = gen.mutate_input(rng, rng.choice(ALT_INPUTS + ["a b x", "ac x"]), "abcd x")
+            ctx.stat("search_cases")
+            _, bad = twin_oracle(spec, inp)
+            if bad:
+                ctx.violation("lookahead-twin:%r|%r" % (spec, inp), bad, {"kind": "twin", "spec": spec, "input": inp})
+                return
+            continue
+        for inp in ALT_INPUTS:
+            try:
+                _, bad, _, _ = alt_oracle(g, inp)
+            except Exception:
+                continue
+            ctx.stat("search_cases")
+            if bad:
+                ctx.violation("or-each:%r|%r" % (g, inp), bad, {"kind": "alt", "grammar": g, "input": inp})
+                return
     for _ in range(1500 if not ctx.thorough else 12000):
         if time.time() - t0 > (90 if not ctx.thorough else 600):
             break
@@ -303,6 +587,14 @@ def replay(ctx, obj):
         a, b = outcome_with_debug(g, env, r["input"], False), outcome_with_debug(g, env, r["input"], r.get("which") or "all")
         print("without debug:", a, " with debug:", b)
         return a == b
+    if r.get("kind") == "alt":
+        nontrivial, bad, why, despite = alt_oracle(_tuplify(r["grammar"]), r["input"])
+        print(bad or ("as predicted (%s)" % why))
+        return bad is None
+    if r.get("kind") == "twin":
+        nontrivial, bad = twin_oracle(_tuplify(r["spec"]), r["input"])
+        print(bad or "same outcome with and without the error stop in the sentinel")
+        return bad is None
     if r.get("kind") == "oracle":
         g, env = _tuplify(r["grammar"]), {int(k): _tuplify(v) for k, v in (r.get("env") or {}).items()}
         k, bad = oracle_case(g, env, r["input"], _tuplify(r.get("mode") or ["none"]))
